@@ -132,7 +132,8 @@ ExtHdr == /\ pc = "exthdr"
              ELSE IF p + 4 > msgEnd THEN Reject("ext-short", TRUE)
              ELSE LET xt == U16at(p)  xl == U16at(p + 2) IN
                   IF p + 4 + xl > msgEnd THEN Reject("ext-overflow", TRUE)
-                  ELSE IF xt = 0 /\ name = <<>>
+                  ELSE IF xt = 0 /\ xEnd # 0 THEN Reject("sni-duplicate", FALSE)     \* at most one extension of a type
+                  ELSE IF xt = 0
                        THEN Go("snlist", p + 4) /\ xEnd' = p + 4 + xl /\ UNCHANGED <<msgEnd, size, name>>
                        ELSE Go("exthdr", p + 4 + xl) /\ UNCHANGED <<msgEnd, xEnd, size, name>>
 
